@@ -264,7 +264,11 @@ namespace nmtools::utils
                 using t_type = meta::get_element_type_t<T>;
                 using u_type = meta::get_element_type_t<U>;
                 using common_t = meta::common_type_t<t_type,u_type,E>;
-                auto abs_diff = constexpr_fabs(static_cast<t_type>(t)-static_cast<u_type>(u));
+                // take the difference in the common type, larger minus smaller:
+                // t - u in the operand types wraps around for unsigned operands (1u - 2 is not -1)
+                const auto lhs = static_cast<common_t>(t);
+                const auto rhs = static_cast<common_t>(u);
+                auto abs_diff = (lhs < rhs) ? (rhs - lhs) : (lhs - rhs);
                 auto result = abs_diff < static_cast<common_t>(eps);
                 #if NMTOOLS_ISCLOSE_NAN_HANDLING
                 result = result || (math::isnan(static_cast<common_t>(t)) && math::isnan(static_cast<common_t>(u)));
